@@ -5,7 +5,8 @@ Lean: Model/XPath.lean (star / condition branches of _find), Props/C06.lean
 B stream : xp.get (get / first / item access) on selecting paths of every form
 C evaluator: list-comprehension oracle for P[*]/f, P/f, P[k=v]/f, P/k[text()=v]/../f, P[k!=v]/f, P[k~v]/f
   (quoted and unquoted v), misses, first's single-match unwrapping; chained selections P[k1 op v1]/items[k op v]/f
-  (nested list of per-parent selections, get / item access / repeated get, identity of the selected values).
+  (per-parent contributions: nested list of selections, a single-record `items` contributes its value un-listed;
+  get / item access / first / repeated get, identity of the selected values); P in random spellings.
 """
 import copy
 
@@ -17,8 +18,8 @@ MANIFEST = dict(
     category="proof",
     technique="Lean 4 theorems over a hand-written model of the xpath engine + differential correspondence with the implementation",
     text="Lean (model of n0dict._find with the fix patches C06-a, C06-c, C06-b and C06-e applied), for the list of dict records at "
-         "ANY position of a dict-rooted tree (canonical path P of keys and indexes, as xpath() prints it), every list length and "
-         "every mix of present/absent fields: C06_star (`P[*]/f` and the shorthand `P/f` return, through get, item access and "
+         "ANY position of a dict-rooted tree, every list length and every mix of present/absent fields. Canonical path P (keys "
+         "and indexes, as xpath() prints it): C06_star (`P[*]/f` and the shorthand `P/f` return, through get, item access and "
          "first, exactly [r[f] for r in rs if f in r] in list order; the default / IndexError when that is empty; first unwraps a "
          "single match - C06_firstOf_cases; tree unchanged), C06_pred (`P[k op v]/f` and `P/k[text() op v]/../f`, operator written "
          "`=`/`==`/`!=`/`~`/`~~`, literal bare or in single or double quotes, the empty literal included: f of exactly the "
@@ -27,26 +28,45 @@ MANIFEST = dict(
          "as numbers, `~` = substring), C06_chained (`P[k1 op v1]/items[k2 op v2]/f` returns, through get and item access, the "
          "nested list of per-parent selections: for every outer record that passes the outer test, in order, the list of f of its "
          "`items` records that pass the inner test; parents with no `items`, an empty `items` or no inner match are left out; the "
-         "default / IndexError when nothing is selected at all). The same for the paths written relative to the root without the "
-         "leading `/` when the list is stored under a key of the root (C06_star_partial, C06_pred_partial, C06_eq_partial, "
-         "C06_ne_partial, C06_contains_partial, C06_text_form_equiv_partial, C06_first_unwrap_partial), and at token level for "
-         "every token list that spells the position of the list - index steps in any spelling (C06_star_spelled). Proved by "
-         "induction over the record list through the engine's fan-out loop, the condition branch, the text() branch and the '..' "
-         "step: the found text of the walk (find_walk/SpellsF) is the canonical path of P[j]/k, '..' re-splits it without "
-         "stripping, drops the last piece and resolves P[j] again from the root (sel2_up_record); with fix C06-b it continues "
-         "with the canonical path of P[j], which is what makes the inner predicate of a chained selection come back to the right "
-         "parent. The tokenisation of every path text used is proved (sel2_tokenize: texts made of /key and [text] pieces). "
-         "Hypotheses: plain field names (no path or operator characters, k not starting with `contains`, k not `text()`), plain "
-         "literal (no blanks, quotes, brackets, /, =, ~, *, ?, %; not true()/false()), no float value of k and a non-ASCII "
-         "literal only against non-numeric k (model scope guard); for chained selections `items`, where an outer record has it, "
-         "is a list of dict records. No statement is left open; positive examples for the four repaired findings "
-         "(C06_numeric_example, C06_empty_literal_example, C06_chained_example, C06_empty_inner_example). Differential only: "
-         "first on chained selections (return_lists=False unwraps single matches on both levels), other spellings of P than the "
-         "canonical one for the predicate forms. The model of the resolver is compared with the real "
-         "code on all selecting forms and chained selections at depth 0-3, with string, int, bool, float and None fields, missing "
-         "fields, duplicates, occurring and non-occurring literals, the empty literal, empty inner lists; the statement "
-         "(list-comprehension oracle, numeric fields compared as numbers; nested per-parent lists for chained selections, also "
-         "through item access and on a repeated lookup) is executed on the implementation.",
+         "default / IndexError when nothing is selected at all). EVERY SPELLING of P (prefix none, `/` or `//`; `][` or `]/[`, "
+         "`a[i]` or `a/[i]`; each index as i, -k, last(), last()-k or i+j): C06_star_spellings_string, C06_pred_spellings_string and "
+         "C06_chained_spellings_string (string level: the same results through get, item access and first for the text of any "
+         "spelling that plain Python indexing follows to the list), C06_pred_spelled and C06_chained_spelled (token level: any "
+         "token list that spells the position of the list - Sel3Spells - followed by `[k op v]`,f / `k[text() op v]`,`..`,f / "
+         "`[k1 op v1]`,`items[k2 op v2]`,f, also with the predicate merged into a last key token `name[k op v]`; both values of "
+         "return_lists), C06_star_spelled (fan-out). FIRST on a chained selection: C06_chained_first (first returns "
+         "firstOf(map single sels) of the per-parent selections sels: return_lists=False replaces every one-record parent "
+         "selection by the bare value, then a single parent by its result, then first's own last step unwraps a remaining "
+         "one-element list) with C06_chained_first_cases (nothing -> default; one parent/one record -> that value, three levels "
+         "unwrapped; one parent/several records -> their list; several parents -> the list of per-parent results, one-record "
+         "parents as bare values). An inner `items` that is ONE dict record instead of a list of records (the library's hidden "
+         "list): C06_chained_hidden / C06_chained_spellings_string (hypothesis InnerRecs: list of dict records or one dict record) - "
+         "such a parent contributes its record's f itself, un-listed, when the record passes the inner test (exactly the matching "
+         "records are selected; only the nesting of a single-record parent is flat), C06_chained_hidden_flat (no list-valued "
+         "`items` at all: the result is the flat comprehension over the parents' records). The same for the paths written "
+         "relative to the root without the leading `/` when the list is stored under a key of the root (C06_star_partial, "
+         "C06_pred_partial, C06_eq_partial, C06_ne_partial, C06_contains_partial, C06_text_form_equiv_partial, "
+         "C06_first_unwrap_partial). Proved by induction over the record list through the engine's fan-out loop, the condition "
+         "branch, the text() branch and the '..' step. The walk along a spelled path writes the EVALUATED index of every index "
+         "step into xpath_found_str (`a[last()]` -> `/a[-1]`): a text of /key and [int] pieces (Sel3Norm) whose tokens spell the "
+         "same position and write the same text again (sel3_norm_spellsF); '..' re-splits it without stripping, drops the last "
+         "piece and resolves P[j] again from the root (sel3_up_record, for a key of a dict sel3_up_field); with fix C06-b it "
+         "continues with the text of P[j], which is what makes the inner predicate of a chained selection come back to the right "
+         "parent. The tokenisation of every path text used is proved (sel2_tokenize: texts made of /key and [text] pieces; "
+         "sel3_tokenize_sp_br/_key: spelling ++ selecting tail). Hypotheses: plain field names (no path or operator characters, k "
+         "not starting with `contains`, k not `text()`), plain literal (no blanks, quotes, brackets, /, =, ~, *, ?, %; not "
+         "true()/false()), no float value of k and a non-ASCII literal only against non-numeric k (model scope guard); for "
+         "chained selections `items`, where an outer record has it, is a list of dict records (or one dict record). No statement "
+         "is left open; positive examples for the four repaired findings (C06_numeric_example, C06_empty_literal_example, "
+         "C06_chained_example, C06_empty_inner_example). Differential only: index spellings with blanks inside the brackets, "
+         "list roots, a scalar `items` "
+         "(the engine raises IndexError there, which aborts the whole fan-out - outside the property's quantifier, see notes). The "
+         "model of the resolver is compared with the real code on all selecting forms and chained selections at depth 0-3 under "
+         "random spellings of P (list elements at varying indexes), with string, int, bool, float and None fields, list-valued "
+         "projected fields, missing fields, duplicates, occurring and non-occurring literals, the empty literal, empty inner "
+         "lists, single-record `items`; the statement (list-comprehension oracle, numeric fields compared as numbers; per-parent "
+         "contributions for chained selections through get, item access, first and a repeated lookup) is executed on the "
+         "implementation.",
     note="unsuppressed verdicts of the evaluators: every form, chained selections included (no open finding).",
     design_ref="5/C06",
 )
@@ -72,9 +92,10 @@ def gen_records(rng, numeric=False, nested=False):
     return recs
 
 
-def gen_orders(rng):
+def gen_orders(rng, hidden=False):
     """outer records that share few key values, each with a (possibly empty / missing) inner list whose records share
-    few key values too: chained selections then select in several parents"""
+    few key values too: chained selections then select in several parents; hidden=True: some parents carry ONE record
+    (a dict) under `items` instead of a list of records"""
     kv = rng.sample(SVALS, 2)
     iv = rng.sample(SVALS, 3)
     recs = []
@@ -88,8 +109,15 @@ def gen_orders(rng):
                 it = {}
                 for f in rng.sample(FIELDS, rng.choice([2, 3, 4])) + (["sku"] if rng.random() < 0.85 else []):
                     it[f] = rng.choice(iv)
+                if rng.random() < 0.12:
+                    # a list-valued field (only ever projected, never compared): first() must not unwrap it too often
+                    it["tags"] = rng.choice([["z"], [["z"]], ["z", "y"], [], [["z"], ["y"]]])
                 items.append(it)
-            r["items"] = items
+            if hidden and items and rng.random() < 0.4:
+                # "hidden list": ONE record stored directly instead of a one-element list of records
+                r["items"] = items[0]
+            else:
+                r["items"] = items
         recs.append(r)
     return recs
 
@@ -104,8 +132,11 @@ def wrap_at_depth(rng, recs, depth):
             node = {k: node, "z": "other"} if rng.random() < 0.5 else {k: node}
             pos.insert(0, k)
         else:
-            node = ["pad", node]
-            pos.insert(0, 1)
+            # the list is an element of a list, at a varying index and with a varying number of elements after it
+            # (so that `-k`, `last()-k` and `i+j` spellings of the index are not all the same number)
+            before = rng.choice([0, 1, 1, 2])
+            node = ["pad"] * before + [node] + ["tail"] * rng.choice([0, 0, 1, 2])
+            pos.insert(0, before)
     if not isinstance(node, dict):
         node = {"root": node}
         pos.insert(0, "root")
@@ -219,15 +250,61 @@ def passes(op, x, v):
     return isinstance(x, str) and v in x
 
 
-def chained_oracle(recs, c):
-    """P[k1 op1 v1]/items[k op v]/f : nested list of per-parent selections (parents with nothing selected left out)"""
+def plain(x):
+    """n0list / n0dict -> list / dict, recursively (comparison with the oracle's plain values)"""
+    if isinstance(x, (list, tuple)):
+        return [plain(y) for y in x]
+    if isinstance(x, dict):
+        return {k: plain(v) for k, v in x.items()}
+    return x
+
+
+def inner_records(items):
+    """the records an `items` value stands for: the elements of a list, or the single dict itself ("hidden list")"""
+    if isinstance(items, list):
+        return items
+    if isinstance(items, dict):
+        return [items]
+    return []
+
+
+def parent_contribution(r, c, return_lists):
+    """(selected?, value) - what one outer record contributes to P[k1 op1 v1]/items[k op v]/f (Lean: innerSelG):
+    a LIST of records contributes the list of its selected values (return_lists=False, i.e. first(): the only value
+    itself when there is exactly one); ONE dict record contributes its own f, un-listed, when it passes"""
+    if not (c["k1"] in r and passes(c.get("op1", "eq"), r[c["k1"]], c["v1"]) and "items" in r):
+        return False, None
+    items = r["items"]
+    if isinstance(items, list):
+        sel = [it[c["f"]] for it in items if c["k"] in it and passes(c.get("op", "eq"), it[c["k"]], c["v"]) and c["f"] in it]
+        if not sel:
+            return False, None
+        return True, (sel if return_lists or len(sel) != 1 else sel[0])
+    if isinstance(items, dict):
+        it = items
+        if c["k"] in it and passes(c.get("op", "eq"), it[c["k"]], c["v"]) and c["f"] in it:
+            return True, it[c["f"]]
+    return False, None
+
+
+def chained_oracle(recs, c, return_lists=True):
+    """P[k1 op1 v1]/items[k op v]/f : list of per-parent contributions (parents with nothing selected left out); with
+    inner lists only this is the nested list of per-parent selections"""
     want = []
     for r in recs:
-        if c["k1"] in r and passes(c.get("op1", "eq"), r[c["k1"]], c["v1"]) and "items" in r:
-            sel = [it[c["f"]] for it in r["items"] if c["k"] in it and passes(c.get("op", "eq"), it[c["k"]], c["v"]) and c["f"] in it]
-            if sel:
-                want.append(sel)
+        ok, val = parent_contribution(r, c, return_lists)
+        if ok:
+            want.append(val)
     return want
+
+
+def first_of(vals, dflt):
+    """Lean firstOf: no value -> the default, one -> itself, several -> the list; then first()'s own last step unwraps a
+    one-element list"""
+    res = dflt if not vals else (vals[0] if len(vals) == 1 else vals)
+    if isinstance(res, (list, tuple)) and len(res) == 1:
+        res = res[0]
+    return res
 
 
 def check_chained(c):
@@ -238,6 +315,11 @@ def check_chained(c):
     if g[0] != "ok":
         return {"get_raised": g[1]}
     it = core.call(lambda: o[c["xp"]])
+    # first(): return_lists=False contributions, single results unwrapped on every level (C06_chained_first)
+    want_first = first_of(chained_oracle(recs, c, return_lists=False), "DFLT")
+    fr = core.call(lambda: o.first(c["xp"], "DFLT"))
+    if fr[0] != "ok" or plain(fr[1]) != want_first:
+        return {"want_first": want_first, "first_returned": repr(fr)[:200]}
     if not want:
         if g[1] != "DFLT":
             return {"want": "miss", "got": repr(g[1])[:200]}
@@ -245,20 +327,20 @@ def check_chained(c):
             return {"want": "miss", "item_access_returned": repr(it[1])[:200]}
         return None
     got = g[1]
-    norm = [list(x) if isinstance(x, list) else x for x in got] if isinstance(got, list) else got
-    if norm != want:
+    if not isinstance(got, list) or plain(got) != want:
         return {"want": want, "got": repr(got)[:200]}
     # the selected values are the objects stored in the tree (of the right parent)
-    src = [itm[c["f"]] for r in X.get_at(o, c["pos"]) if isinstance(r, dict) for itm in r.get("items", []) if c["f"] in itm]
-    for sel in got:
-        for x in sel:
+    src = [itm[c["f"]] for r in X.get_at(o, c["pos"]) if isinstance(r, dict) and "items" in r
+           for itm in inner_records(r["items"]) if isinstance(itm, dict) and c["f"] in itm]
+    for r, sel in zip([r for r in recs if parent_contribution(r, c, True)[0]], got):
+        for x in (sel if isinstance(r["items"], list) else [sel]):
             if not any(x is y for y in src):
                 return {"value_not_from_tree": repr(x)}
-    if it[0] != "ok" or [list(x) if isinstance(x, list) else x for x in it[1]] != want:
+    if it[0] != "ok" or plain(it[1]) != want:
         return {"want": want, "item_access": repr(it)[:200]}
-    # the same lookup again on the same object (the resolver keeps no state between lookups)
+    # the same lookup again on the same object (the resolver keeps no state between lookups), also after first()
     g2 = core.call(lambda: o.get(c["xp"], "DFLT"))
-    if g2[0] != "ok" or [list(x) if isinstance(x, list) else x for x in g2[1]] != want:
+    if g2[0] != "ok" or plain(g2[1]) != want:
         return {"want": want, "second_get": repr(g2)[:200]}
     return None
 
@@ -346,9 +428,9 @@ def run(ctx):
         cases.append({"tree": tree, "mode": rng.choice(["n0", "wrap"]), "pos": pos, "form": form, "k": k, "f": f, "v": v if isinstance(v, str) else vs, "xp": xp})
     ctx.evaluate("select", cases, check_select, in_known=in_known, nontrivial=lambda c: len(X.get_at(c["tree"], c["pos"])) > 1)
     for _ in range(ctx.budget(400, 8000)):
-        recs = gen_orders(rng) if rng.random() < 0.65 else gen_records(rng, nested=True, numeric=rng.random() < 0.2)
+        recs = gen_orders(rng, hidden=rng.random() < 0.5) if rng.random() < 0.65 else gen_records(rng, nested=True, numeric=rng.random() < 0.2)
         tree, pos = wrap_at_depth(rng, recs, rng.choice([0, 1, 2, 3]))
-        P = X.render_rel(tree, pos) if rng.random() < 0.6 else X.render(rng, tree, pos)
+        P = X.render_rel(tree, pos) if rng.random() < 0.5 else X.render(rng, tree, pos)
         k1 = "id" if rng.random() < 0.6 else rng.choice(FIELDS)
         ids = [r[k1] for r in recs if k1 in r and "items" in r]
         v1 = rng.choice(ids) if ids and rng.random() < 0.8 else rng.choice(SVALS)
@@ -357,12 +439,13 @@ def run(ctx):
         op1 = rng.choice(["eq", "eq", "eq", "ne", "contains"])
         op = rng.choice(["eq", "eq", "eq", "ne", "contains"])
         sel_par = [r for r in recs if k1 in r and passes(op1, r[k1], str(v1))]
-        its = [it for r in (sel_par if rng.random() < 0.8 else recs) for it in r.get("items", []) if it]
+        its = [it for r in (sel_par if rng.random() < 0.8 else recs) for it in inner_records(r.get("items", []))
+               if it and any(x != "tags" for x in it)]
         if its and rng.random() < 0.85:
             it = rng.choice(its)
-            k = "sku" if "sku" in it and rng.random() < 0.5 else rng.choice(list(it))
+            k = "sku" if "sku" in it and rng.random() < 0.5 else rng.choice([x for x in it if x != "tags"])
             v = it[k]
-            f = rng.choice(list(it))
+            f = "tags" if "tags" in it and rng.random() < 0.6 else rng.choice(list(it))
         else:
             k, f, v = rng.choice(FIELDS), rng.choice(FIELDS), rng.choice(SVALS)
         q1, q2 = rng.choice(["", "s", "d"]), rng.choice(["", "s", "d"])
@@ -373,9 +456,20 @@ def run(ctx):
             q2 = "s"
         xp = "%s[%s%s%s]/items[%s%s%s]/%s" % (P, k1, OPS[op1], lit(rng, v1s, q1), k, OPS[op], lit(rng, vs, q2), f)
         chained.append({"tree": tree, "mode": rng.choice(["n0", "wrap"]), "pos": pos, "chained": True, "k1": k1, "op1": op1, "v1": v1s,
-                        "k": k, "op": op, "f": f, "v": vs, "xp": xp, "form": "chained"})
+                        "k": k, "op": op, "f": f, "v": vs, "xp": xp, "form": "chained",
+                        "spelled": P not in (X.render_rel(tree, pos), "//" + X.render_rel(tree, pos), "/" + X.render_rel(tree, pos))})
     ctx.evaluate("chained", chained, check_chained, in_known=in_known,
                  nontrivial=lambda c: len(chained_oracle(X.get_at(c["tree"], c["pos"]), c)) > 0)
+    sel_recs = lambda c: [r for r in X.get_at(c["tree"], c["pos"]) if parent_contribution(r, c, True)[0]]
+    ctx.extra["chained_classes"] = {
+        "selecting": sum(1 for c in chained if sel_recs(c)),
+        "several_parents": sum(1 for c in chained if len(sel_recs(c)) > 1),
+        "hidden_parent_selected": sum(1 for c in chained if any(isinstance(r["items"], dict) for r in sel_recs(c))),
+        "first_unwraps_to_single_value": sum(1 for c in chained if [len(x) for x in chained_oracle(X.get_at(c["tree"], c["pos"]), c)
+                                                                   if isinstance(x, list)] == [1] and len(sel_recs(c)) == 1),
+        "list_valued_field_selected": sum(1 for c in chained if c["f"] == "tags" and sel_recs(c)),
+        "non_canonical_spelling": sum(1 for c in chained if c.get("spelled")),
+    }
     rng = ctx.rng("kinds")
     lk = [dict(xp=c["xp"], tree=c["tree"], mode=c["mode"], kind=rng.choice("gif"), d=rng.choice([None, "D"])) for c in cases + chained]
 
@@ -402,6 +496,6 @@ def run(ctx):
     ctx.extra["forms"] = forms
     ctx.extra["assumptions"] = [
         "record fields are plain names; literals are taken from / absent from the data",
-        "theorems: the record list at any position (canonical path), chained selections with `items` a list of dict records; other spellings of the prefix, first() on chained selections and list roots are covered by B and C only",
+        "theorems: the record list at any position of a dict-rooted tree, every spelling of its path (prefix, ][ vs ]/[, index as i, -k, last(), last()-k, i+j), chained selections with `items` a list of dict records or one dict record, first() on them; index texts with blanks, list roots and scalar `items` are covered by B and C only",
         "the implementation under test carries the fix patches C06-a, C06-c, C06-b and C06-e",
     ]
